@@ -33,6 +33,8 @@ EPS32 = float(np.finfo(np.float32).eps)
 def gen(rng, tier):
     from e1_threads.harness import gen_sched
     n = rng.choice([1, 2, 3, 4, 5, 6, 7, 8, rng.randrange(1, 13)] + ([rng.randrange(13, 21)] if tier == 'thorough' else []))
+    if rng.random() < 0.03:
+        n = rng.choice([16, 17, 24, 32])
     L = rng.choice([1.0, 2 * np.pi, 500.0, 2000.0])
     dk = 2 * np.pi / L
     nyq2 = (n / 2.0) ** 2
